@@ -20,6 +20,7 @@ MODULES = {
     "vk_handles": "filesystem/handles.rs",
     "vk_fs": "filesystem/mod.rs",
     "vk_fat": "fat/volume.rs",
+    "vk_sd": "sdcard/mod.rs",
 }
 # harness module -> rust path of the module
 MODPATH = {
@@ -32,6 +33,7 @@ MODPATH = {
     "vk_handles": "filesystem::handles::vk_handles",
     "vk_fs": "filesystem::vk_fs",
     "vk_fat": "fat::volume::vk_fat",
+    "vk_sd": "sdcard::vk_sd",
 }
 
 
@@ -165,6 +167,43 @@ H("C17", "vk_lfn", "c17_lfn_single_fragment_name", desc="fresh buffer + one frag
 H("C17", "vk_lfn", "c17_lfn_two_pushes_utf8", tier="thorough", desc="two pushes into a <=16 byte buffer: as_str is valid UTF-8 (direct validation)", bounds="5 symbolic units", timeout=3600, cost=2, mem_gb=24)
 
 # ---------------------------------------------------------------------------
+# C08 handles / limits / lock
+# ---------------------------------------------------------------------------
+PROPS["C08"] = dict(
+    bounds="one call from an arbitrary table state: limits MAX_VOLUMES=MAX_DIRS=MAX_FILES=2, table lengths 0..=2 "
+           "(branching over concrete shapes), handle values and generator state symbolic (32 bit), pairwise distinct with two "
+           "generations of head-room; every entry point that takes a handle; the three lookup functions on symbolic tables",
+    outside="limits other than 2 (the table code is generic over the capacity); handle distinctness needs 'fewer than 2^32 "
+            "handles generated since the oldest open handle' (wrap-around reuse is documented by the authors); for "
+            "read/write and the directory-taking calls the stale-handle rejection is decided on tables with concrete "
+            "payloads / an empty table of that kind, composed with the lookup-function harness (symbolic tables); histories "
+            "are covered by the one-step induction over the table invariant; the re-entrancy lock clause is not decided "
+            "(every call inside the callback re-explores the whole API body; see DESIGN)",
+    assumptions=["table invariant: handles pairwise distinct across kinds, none equal to the generator's next two ids"],
+)
+for n, d in [
+    ("c08_generator_step", "generate() returns next id and advances by exactly 1 mod 2^32"),
+    ("c08_open_root_dir", "fresh handle (also twice) / TooManyOpenDirs exactly at capacity / BadHandle for unknown volume / frame"),
+    ("c08_open_dir_dot", "open_dir(parent, '.') fresh handle, designates parent, limit, stale parent"),
+    ("c08_close_dir", "close frees exactly that slot; stale handle BadHandle; closed handle rejected afterwards"),
+    ("c08_close_file", "close_file frees exactly that slot; stale handle BadHandle; rejected afterwards"),
+    ("c08_stale_file_read", "read (any buffer length 0..=2) rejects a handle that is not open, no effect"),
+    ("c08_stale_file_write", "write rejects a handle that is not open, no effect"),
+    ("c08_stale_file_flush_close", "flush_file/close_file reject a handle that is not open, no effect"),
+    ("c08_stale_file_seek_query", "eof/seek x3/length/offset reject a handle that is not open"),
+    ("c08_stale_dir_open_close", "open_dir/close_dir reject a stale directory handle"),
+    ("c08_stale_dir_find_iterate", "find_directory_entry/iterate_dir/iterate_dir_lfn reject a stale directory handle"),
+    ("c08_stale_dir_open_file", "open_file_in_dir (all modes) rejects a stale directory handle"),
+    ("c08_stale_dir_delete_mkdir", "delete_file_in_dir/make_dir_in_dir reject a stale directory handle"),
+    ("c08_lookup_functions", "get_file/dir/volume_by_id: Ok(i) iff table[i] carries the handle, else BadHandle (symbolic tables)"),
+    ("c08_limits_full_tables", "TooManyOpenFiles/Dirs/Volumes at capacity before any device access"),
+    ("c08_close_volume_and_reopen", "close_volume refused while in use; frees slot; stale; second open of same index refused"),
+    ("c08_has_open_handles", "has_open_handles() == dirs non-empty || files non-empty"),
+]:
+    H("C08", "vk_vm", n, desc=d, bounds="tables<=2 each, handles symbolic", timeout=900)
+H("C08", "vk_vm", "c08_lock_reentrancy", desc="each of the 22 result-returning public methods called from an iterate_dir callback returns LockError; tables and device unchanged", bounds="one-entry FAT16 root, one open volume/dir/file", timeout=900, cost=3, mem_gb=20)
+
+# ---------------------------------------------------------------------------
 # FatVolume-level harnesses shared by C03 C04 C05 C06 C10 C16
 # ---------------------------------------------------------------------------
 UW_ALLOC = [("find_next_free_cluster", r"while this_fat_ent_offset <= Block::LEN - [24]", 12),
@@ -200,3 +239,41 @@ H("C04", "vk_fat", "c04_update_fat16_frame", desc="update_fat FAT16: only the ad
 H("C04", "vk_fat", "c04_cluster_to_block_in_data_area", desc="cluster_to_block inside the data area for fully symbolic geometry", bounds="all geometries satisfying the mount invariant, bpc 1..128")
 PROPS["C16"] = dict(bounds="(in progress)", outside="")
 H("C16", "vk_fat", "c16_update_fat32_both_copies", desc="update_fat FAT32 2 FATs: both copies written and identical; high nibble preserved; frame", bounds="FAT sector fully symbolic, cluster 2..8 symbolic")
+
+# ---------------------------------------------------------------------------
+# C12 / C13 / C14 SD card driver
+# ---------------------------------------------------------------------------
+UW_SD = [("sdcard/mod.rs", r"^\s*loop \{", 5), ("sdcard/mod.rs", r"= loop \{", 5),
+         ("acquire", r"for _attempts in 1\.\.", 3), ("acquire", r"for _ in 0\.\.0xFF", 2), ("acquire", r"while s\.card_acmd", 5)]
+_sdb = "card model: SPI-mode SD card state machine written from the SD Physical Layer spec (harness vk_sd::Card) with protocol monitor; response delay, data-token delay and busy length 0..=2 bytes, concrete per instance; payloads and card memory (3-block window) fully symbolic; block numbers concrete per instance"
+PROPS["C12"] = dict(bounds=_sdb + "; transfers of 1 and 2 blocks; all three card kinds; CRC on/off; CSD fully symbolic",
+    outside="card timings above 2 bytes (up to the driver's 10 000/50 000-poll budgets: loop shape argument, see C13); transfers of more than 2 blocks; block numbers other than the instances' (the address computation is linear: *512 for standard capacity); sequences of calls are covered one call at a time from a consistent (driver, card) state",
+    assumptions=["SD card behaviour = harness model Card (about 300 lines, written from the specification)"])
+PROPS["C14"] = dict(bounds=_sdb, outside="sequences of more than one driver call (one-step from any consistent driver/card state instead); re-initialisation after mark_card_uninit is the identification harness run from a card in any state", assumptions=["protocol monitor = harness model Card"])
+PROPS["C13"] = dict(bounds=_sdb + "; corruption: the card's CRC-16 xored with any 16-bit value; any data response token, any status byte, any wrong data token, SPI error at any byte index",
+    outside="termination under an adversarial card is decided with the three Delay budgets stubbed to <= 2 (the real budgets are 10 000 / 50 000 polls); see DESIGN", assumptions=[])
+for n, t in [("c12_acquire_probe", "quick"), ("c12_acquire_sdhc_crc", "quick"), ("c12_acquire_sd1_nocrc", "quick"), ("c12_acquire_sd2_crc", "thorough"), ("c12_acquire_sdhc_nocrc_d2", "thorough"), ("c12_acquire_sd1_crc_d2", "thorough")]:
+    H("C12", "vk_sd", n, tier=t, desc="acquire(): kind identified, card ready, CRC mode as requested, legal conversation", bounds="kind/CRC per instance, response delay and ACMD41 polls symbolic", unwindset=UW_SD, timeout=900, cost=2)
+for n in ["c12_capacity_sd1", "c12_capacity_sd2", "c12_capacity_sdhc"]:
+    H("C12", "vk_sd", n, desc="num_blocks() == capacity encoded in the CSD for its structure version", bounds="CSD fully symbolic", unwindset=UW_SD, timeout=900, cost=2)
+for n in ["c12_read1_sdhc_crc", "c12_read1_sd1_nocrc"]:
+    H("C12", "vk_sd", n, desc="single-block read returns the addressed block; memory unchanged; legal conversation", bounds="memory+timings symbolic", unwindset=UW_SD, timeout=1800, cost=4, mem_gb=24)
+for n in ["c12_read1_sd2_crc", "c12_read1_sdhc_nocrc_high", "c12_read2_sdhc_crc", "c12_read2_sd2_nocrc", "c12_write1_sd1_nocrc", "c12_write1_sd2_crc", "c12_write2_sdhc_crc", "c12_write2_sd1_nocrc"]:
+    H("C12", "vk_sd", n, tier="thorough", desc="read/write transfer == addressed blocks, nothing else changes, legal conversation", bounds="memory+payload+timings symbolic", unwindset=UW_SD, timeout=3600, cost=5, mem_gb=24)
+H("C12", "vk_sd", "c12_write1_sdhc_crc", desc="single-block write stores exactly the given bytes at the addressed block only; legal conversation", bounds="memory+payload+timings symbolic", unwindset=UW_SD, timeout=1800, cost=4, mem_gb=24)
+H("C13", "vk_sd", "c13_read_crc_mismatch_rejected", desc="CRC on: read Ok iff the appended CRC equals crc16(received data)", bounds="any 16-bit corruption of the CRC, data symbolic", unwindset=UW_SD, timeout=1800, cost=4, mem_gb=24)
+H("C13", "vk_sd", "c13_write_faults_reported", desc="write: rejected data response or non-zero CMD13 status => Err (both CRC modes)", bounds="any response token, any status byte", unwindset=UW_SD, timeout=1800, cost=4, mem_gb=24)
+H("C13", "vk_sd", "c13_read_bad_token_or_bus_error", desc="read: wrong data token or SPI error at any byte => Err", bounds="any token, any byte index", unwindset=UW_SD, timeout=1800, cost=4, mem_gb=24)
+UW_SD_EVIL = UW_SD[:3] + [("acquire", r"for _ in 0\\.\\.0xFF", 256), ("acquire", r"while s\\.card_acmd", 5)]
+_stub = ["-Z", "stubbing"]
+H("C13", "vk_sd", "c13_delay_budget_step", desc="Delay::delay fails exactly when the budget is 0, else decrements by one", bounds="all 2^32 budgets")
+H("C13", "vk_sd", "c13_bounded_card_command", desc="adversarial peer (every MISO byte arbitrary, bus error at any byte): card_command returns within 2(B+1)+7 bytes", bounds="any command/argument, Delay budgets stubbed <= 2", kani_args=_stub, unwindset=UW_SD_EVIL, timeout=900, cost=2)
+H("C13", "vk_sd", "c13_bounded_read_single", desc="adversarial peer: single-block read bounded; bus error => Err", bounds="budgets <= 2", kani_args=_stub, unwindset=UW_SD_EVIL, timeout=1800, cost=4, mem_gb=24)
+H("C13", "vk_sd", "c13_bounded_write_single", desc="adversarial peer: single-block write bounded; bus error => Err", bounds="budgets <= 2", kani_args=_stub, unwindset=UW_SD_EVIL, timeout=1800, cost=4, mem_gb=24)
+H("C13", "vk_sd", "c13_bounded_acquire", tier="thorough", desc="adversarial peer: initialisation bounded; failed init leaves card_type None", bounds="budgets <= 2, acquire_retries 1", kani_args=_stub, unwindset=UW_SD_EVIL, timeout=7200, cost=8, mem_gb=30)
+# C14: the protocol monitor assertions (labels sd.proto / sd.addr) of the same harnesses
+for n, t in [("c12_acquire_probe", "quick"), ("c12_acquire_sdhc_crc", "quick"), ("c12_acquire_sd1_nocrc", "quick"), ("c12_acquire_sd2_crc", "thorough"), ("c12_acquire_sdhc_nocrc_d2", "thorough"), ("c12_acquire_sd1_crc_d2", "thorough")]:
+    H("C14", "vk_sd", n, tier=t, desc="identification conversation legal: frames (start/transmission bits, CRC-7, end bit), CMD0 first, CMD8 before ACMD41, CMD55 prefix, HCS for v2 cards, not while busy", bounds="kind/CRC/timing per instance", unwindset=UW_SD, timeout=900, cost=2)
+H("C14", "vk_sd", "c14_reinit_after_uninit", desc="re-initialisation after mark_card_uninit from a ready card: legal conversation, card initialised again", bounds="SDHC, CRC before/after symbolic", unwindset=UW_SD, timeout=900, cost=2)
+for n, t in [("c12_read1_sdhc_crc", "quick"), ("c12_write1_sdhc_crc", "quick"), ("c12_read2_sdhc_crc", "thorough"), ("c12_write2_sdhc_crc", "thorough"), ("c12_read2_sd2_nocrc", "thorough"), ("c12_write2_sd1_nocrc", "thorough")]:
+    H("C14", "vk_sd", n, tier=t, desc="data transfer conversation legal: data commands only when ready, token + 512 bytes + 2 CRC bytes (valid when CRC on), host idle while card sends, CMD18 ended by CMD12, CMD25 by the stop token, nothing sent while busy", bounds="memory/payload symbolic, timing per instance", unwindset=UW_SD, timeout=3600, cost=5, mem_gb=30)
